@@ -691,13 +691,16 @@ func c20GcsCatalogue() []c20GcsCase {
 				rest := append(append([]string(nil), kvs[:i]...), kvs[i+1:]...)
 				add(fmt.Sprintf("%s:drop-param-%s", n, kvs[i]), withURL(b, path+q(strings.Join(rest, "&"))))
 				key := strings.SplitN(kvs[i], "=", 2)[0]
-				for _, v := range []string{"", "-1", "abc", "99999999999999999999", "0", "%zz", "1e3"} {
+				for _, v := range []string{"", "-1", "abc", "99999999999999999999", "0", "%zz", "1e3", "9223372036854775807", "4611686018427387904"} {
 					alt := append(append(append([]string(nil), kvs[:i]...), key+"="+v), kvs[i+1:]...)
 					add(fmt.Sprintf("%s:param-%s=%s", n, key, v), withURL(b, path+q(strings.Join(alt, "&"))))
 				}
 			}
 		}
-		for _, extra := range []string{"upload_id=999", "upload_id=abc", "upload_id=", "uploadType=bogus", "uploadType=resumable", "alt=bogus", "alt=media", "ifGenerationMatch=x", "pageToken=%25%25", "maxResults=0", "name="} {
+		for _, extra := range []string{"upload_id=999", "upload_id=abc", "upload_id=", "uploadType=bogus", "uploadType=resumable", "alt=bogus", "alt=media", "ifGenerationMatch=x", "pageToken=%25%25", "maxResults=0", "name=",
+			// sizes at the edge of the integer range (they either fail to parse or are far above any count: nothing may be
+			// sized by them)
+			"maxResults=9223372036854775807", "maxResults=4611686018427387904", "maxResults=99999999999999999999999", "maxResults=-9223372036854775808"} {
 			u := path + "?" + extra
 			if query != "" {
 				u = path + "?" + query + "&" + extra
